@@ -69,19 +69,28 @@ HoldersOf(c) ==
 OwnerOf(c, h) == Min({e \in 1..Len(c.world.einsums) : \E k \in 1..Len(ViewE(c, e)) :
                          ViewE(c, e)[k].n.kind = "S" /\ ViewE(c, e)[k].n.id = h.id})
 
+\* A persistent tensor (world.persist, optional field) is held once per workload instance (world.ninst copies);
+\* every other tile exists once, whatever the instance count.
+SeqRange(s) == {s[k] : k \in 1..Len(s)}
+IsPersistent(c, t) == "persist" \in DOMAIN c.world /\ t \in SeqRange(c.world.persist)
+Copies(c, t) == IF IsPersistent(c, t) THEN c.world.ninst ELSE 1
+
 Reserved(c, h) ==
   LET e == OwnerOf(c, h)
       v == ViewE(c, e)
       k == CHOOSE k \in 1..Len(v) : v[k].n.kind = "S" /\ v[k].n.id = h.id
       q == FootprintPos(c.world, NodesOfView(v), k)
-  IN [bits |-> TileValuesAt(c.world, NodesOfView(v), q, h.t) * c.world.bits[h.mem][h.t], scope |-> v[q].scope]
+  IN [bits |-> TileValuesAt(c.world, NodesOfView(v), q, h.t) * c.world.bits[h.mem][h.t] * Copies(c, h.t),
+      scope |-> v[q].scope]
 
 LiveLeaves(c, h) ==
   LET r == Reserved(c, h)
       S == r.scope
       U == {c.world.einsums[e].name : e \in UsersT(c, h.t)}
       idxs == {i \in 1..Len(S) : S[i] \in U}
-  IN IF idxs = {} THEN {} ELSE {S[i] : i \in Min(idxs)..Max(idxs)}
+  IN IF Copies(c, h.t) > 1 \/ IsPersistent(c, h.t)
+     THEN {S[i] : i \in 1..Len(S)}        \* a persistent tile stays resident for the whole workload
+     ELSE IF idxs = {} THEN {} ELSE {S[i] : i \in Min(idxs)..Max(idxs)}
 
 RECURSIVE SumBitsLive(_, _, _)
 SumBitsLive(c, H, leaf) ==
